@@ -1,8 +1,13 @@
-// C03 impl driver: executes histories on Dune::ParallelIndexSet<int, ParallelLocalIndex<Attr>, N> and
-// Dune::GlobalLookupIndexSet built from the working tree.  One output line per case (history), the
-// outputs of the ops joined by ';', same canonical form as ml/C03_driver.ml.
-// Case line:  N chk op op ...   (chk must match how this binary was built: 1 = without NDEBUG, 0 = with NDEBUG)
-//   B | A:g:loc:attr:pub | D:k | E | R | X:g | T:g | G:g | S | Q | M | I | V:l | W:sz:l
+// C03 impl driver: executes histories on Dune::ParallelIndexSet<TG, TL, N> and Dune::GlobalLookupIndexSet built
+// from the working tree.  One output line per case (history), the outputs of the ops joined by ';', same
+// canonical form as ml/C03_driver.ml.
+// Case line:  <N>[L] chk op op ...   (chk must match how this binary was built: 1 = without NDEBUG, 0 = with NDEBUG)
+//   variant without suffix: TG = int,       TL = ParallelLocalIndex<Attr>
+//   variant with suffix L : TG = long long, TL = LocalIndex   (generic LocalIndexComparator; attribute/public printed as 0)
+//   B | A:g:loc:attr:pub | a:g | D:k | E | R | X:g | T:g | G:g | S | Q | M | I | V:l | W:sz:l
+//   U:g:l (at(g).setLocal / at(g).local()=) | Z:w (operator==/!= against a rebuilt, perturbed set of another chunk size)
+//   K:i:j:g (12 IndexPair comparison operators) | Y:g (GlobalLookupIndexSet::operator[]) | J (GlobalLookupIndexSet begin/end)
+//   C (copy construction / copy assignment, read back immediately)
 // Only the public API is used.
 #include <config.h>
 #include <cstdio>
@@ -15,32 +20,52 @@
 #include <dune/common/exceptions.hh>
 #include <dune/common/parallel/indexset.hh>
 #include <dune/common/parallel/plocalindex.hh>
+#include <dune/common/parallel/localindex.hh>
 
-enum Attr { a0 = 0, a1, a2, a3, a4, a5, a6, a7 };
-typedef Dune::ParallelLocalIndex<Attr> LI;
+enum Attr { a0 = 0, a1, a2, a3, a4, a5, a6, a7, a8, a9 };
+typedef Dune::ParallelLocalIndex<Attr> PLI;
+
+// ---- the two local index types behind one small interface
+static PLI mk(const PLI*, std::size_t loc, int attr, bool pub)
+{ return loc == 0 ? PLI((Attr) attr, pub) : PLI(loc, (Attr) attr, pub); }      // 2-argument ctor: local index 0
+static Dune::LocalIndex mk(const Dune::LocalIndex*, std::size_t loc, int, bool)
+{ return loc == 0 ? Dune::LocalIndex() : Dune::LocalIndex(loc); }
+static int attr_of(const PLI& l) { return (int) l.attribute(); }
+static int attr_of(const Dune::LocalIndex&) { return 0; }
+static int pub_of(const PLI& l) { return l.isPublic() ? 1 : 0; }
+static int pub_of(const Dune::LocalIndex&) { return 0; }
+static void set_attr(PLI& l, int a) { l.setAttribute((Attr) a); }
+static void set_attr(Dune::LocalIndex&, int) {}
+static PLI with_pub(const PLI& l, bool pub) { PLI r(l.local(), l.attribute(), pub); r.setState(l.state()); return r; }
+static Dune::LocalIndex with_pub(const Dune::LocalIndex& l, bool) { return l; }
 
 template<class P>
 static std::string pstr(const P& p)
 {
-  char buf[128];
-  std::snprintf(buf, sizeof buf, "(%d,%zu,%d,%d,%s)", (int) p.global(), (std::size_t) p.local().local(),
-                (int) p.local().attribute(), p.local().isPublic() ? 1 : 0,
+  char buf[160];
+  std::snprintf(buf, sizeof buf, "(%lld,%zu,%d,%d,%s)", (long long) p.global(), (std::size_t) p.local().local(),
+                attr_of(p.local()), pub_of(p.local()),
                 p.local().state() == Dune::DELETED ? "D" : (p.local().state() == Dune::VALID ? "V" : "?"));
   return buf;
 }
 
-static std::vector<long> fields(const std::string& s)
+static std::vector<long long> fields(const std::string& s)
 {
-  std::vector<long> r; std::string w; std::istringstream is(s);
+  std::vector<long long> r; std::string w; std::istringstream is(s);
   bool first = true;
-  while (std::getline(is, w, ':')) { if (first) { first = false; continue; } r.push_back(std::stol(w)); }
+  while (std::getline(is, w, ':')) { if (first) { first = false; continue; } r.push_back(std::stoll(w)); }
   return r;
 }
 
-template<int N>
+static std::string bits(std::initializer_list<bool> b) { std::string r = "b"; for (bool x : b) r += x ? '1' : '0'; return r; }
+
+template<class TG, class TL, int N>
 static std::string run(const std::vector<std::string>& t)
 {
-  typedef Dune::ParallelIndexSet<int, LI, N> Set;
+  typedef Dune::ParallelIndexSet<TG, TL, N> Set;
+  typedef Dune::ParallelIndexSet<TG, TL, 5> Set2;                 // the other chunk size for operator== (N is never 5)
+  typedef typename Set::IndexPair Pair;
+  static_assert(Set::arraySize == ((N > 0) ? N : 1), "arraySize");
   Set s;
   const Set& cs = s;
 #ifdef NDEBUG
@@ -51,32 +76,38 @@ static std::string run(const std::vector<std::string>& t)
   std::string out;
   for (std::size_t i = 2; i < t.size(); ++i) {
     const std::string& op = t[i];
-    std::vector<long> f = fields(op);
+    std::vector<long long> f = fields(op);
     std::string r;
     try {
       switch (op[0]) {
       case 'B': s.beginResize(); r = "ok"; break;
-      case 'A': s.add((int) f[0], LI((std::size_t) f[1], (Attr) f[2], f[3] != 0)); r = "ok"; break;
+      case 'A': s.add((TG) f[0], mk((const TL*) 0, (std::size_t) f[1], (int) f[2], f[3] != 0)); r = "ok"; break;
+      case 'a': s.add((TG) f[0]); r = "ok"; break;
       case 'D': {
         std::size_t k = (std::size_t) f[0];
         if (k >= s.size() && (!checking || s.state() == Dune::RESIZE)) { r = "PRECOND"; break; }
         typename Set::iterator it = s.begin();
-        for (std::size_t j = 0; j < k; ++j) ++it;
+        if (k % 2) it += k; else for (std::size_t j = 0; j < k; ++j) ++it;
         s.markAsDeleted(it); r = "ok"; break;
       }
       case 'E': s.endResize(); r = "ok"; break;
       case 'R': s.renumberLocal(); r = "ok"; break;
-      case 'X': r = cs.exists((int) f[0]) ? "1" : "0"; break;
+      case 'X': r = cs.exists((TG) f[0]) ? "1" : "0"; break;
       case 'T': {
         std::string r1, r2;
-        try { r1 = pstr(s.at((int) f[0])); } catch (Dune::RangeError&) { r1 = "EXC RangeError"; }
-        try { r2 = pstr(cs.at((int) f[0])); } catch (Dune::RangeError&) { r2 = "EXC RangeError"; }
+        try { r1 = pstr(s.at((TG) f[0])); } catch (Dune::RangeError&) { r1 = "EXC RangeError"; }
+        try { r2 = pstr(cs.at((TG) f[0])); } catch (Dune::RangeError&) { r2 = "EXC RangeError"; }
         r = (r1 == r2) ? r1 : ("nonconst=" + r1 + ",const=" + r2); break;
       }
       case 'G': {
         if (s.size() == 0) { r = "PRECOND"; break; }
-        std::string r1 = pstr(s[(int) f[0]]), r2 = pstr(cs[(int) f[0]]);
+        std::string r1 = pstr(s[(TG) f[0]]), r2 = pstr(cs[(TG) f[0]]);
         r = (r1 == r2) ? r1 : ("nonconst=" + r1 + ",const=" + r2); break;
+      }
+      case 'U': {
+        Pair& p = s.at((TG) f[0]);
+        if (f[1] % 2) p.local() = (std::size_t) f[1]; else p.setLocal((int) f[1]);
+        r = "ok"; break;
       }
       case 'S': r = std::to_string(cs.size()); break;
       case 'Q': r = std::to_string(cs.seqNo()); break;
@@ -86,7 +117,27 @@ static std::string run(const std::vector<std::string>& t)
         for (typename Set::const_iterator it = cs.begin(); it != cs.end(); ++it) r1 += pstr(*it);
         for (typename Set::iterator it = s.begin(); it != s.end(); ++it) r2 += pstr(*it);
         r1 += "]"; r2 += "]";
-        r = (r1 == r2) ? r1 : ("const=" + r1 + ",nonconst=" + r2); break;
+        r = (r1 == r2) ? r1 : ("const=" + r1 + ",nonconst=" + r2);
+        const std::size_t n = cs.size();
+        if (n <= 48) {                                           // the other access paths of the iterators
+          std::vector<std::string> bw, cbw; std::string r3 = "[", r4 = "[", r5 = "[", r6 = "[";
+          typename Set::iterator e = s.end(), b = s.begin();
+          while (e != b) { --e; bw.push_back(pstr(*e)); }
+          for (std::size_t k = bw.size(); k-- > 0; ) r3 += bw[k];
+          typename Set::const_iterator ce = cs.end(), cb = cs.begin();
+          while (ce != cb) { --ce; cbw.push_back(pstr(*ce)); }
+          for (std::size_t k = cbw.size(); k-- > 0; ) r4 += cbw[k];
+          for (std::size_t k = 0; k < n; ++k) { typename Set::const_iterator c = cs.begin(); c += k; r5 += pstr(*c); r6 += pstr(s.begin()[k]); }
+          r3 += "]"; r4 += "]"; r5 += "]"; r6 += "]";
+          if (r3 != r1) r += ",backward=" + r3;
+          if (r4 != r1) r += ",const-backward=" + r4;
+          if (r5 != r1) r += ",const-advance=" + r5;
+          if (r6 != r1) r += ",index=" + r6;
+          { typename Set::const_iterator conv(s.begin()); if (n && pstr(*conv) != pstr(*cs.begin())) r += ",iterator-conversion=" + pstr(*conv); }
+          if ((std::size_t) (cs.end() - cs.begin()) != n) r += ",const-distance=" + std::to_string(cs.end() - cs.begin());
+          if ((std::size_t) (s.end() - s.begin()) != n) r += ",distance=" + std::to_string(s.end() - s.begin());
+        }
+        break;
       }
       case 'V': {
         Dune::GlobalLookupIndexSet<Set> gl(cs);
@@ -108,6 +159,57 @@ static std::string run(const std::vector<std::string>& t)
         if (gl.size() != sz) r += " (size differs)";
         break;
       }
+      case 'Y': {
+        if (s.size() == 0) { r = "PRECOND"; break; }
+        Dune::GlobalLookupIndexSet<Set> gl(cs);
+        r = pstr(gl[(TG) f[0]]); break;
+      }
+      case 'J': {
+        Dune::GlobalLookupIndexSet<Set> gl(cs);
+        r = "[";
+        for (typename Dune::GlobalLookupIndexSet<Set>::const_iterator it = gl.begin(); it != gl.end(); ++it) r += pstr(*it);
+        r += "]"; break;
+      }
+      case 'K': {
+        std::size_t a = (std::size_t) f[0], b = (std::size_t) f[1]; TG g = (TG) f[2];
+        if (a >= cs.size() || b >= cs.size()) { r = "PRECOND"; break; }
+        const Pair& p = cs.begin()[a];
+        const Pair& q = s.begin()[b];
+        r = bits({ p == q, p != q, p < q, p > q, p <= q, p >= q, p == g, p != g, p < g, p > g, p <= g, p >= g });
+        break;
+      }
+      case 'Z': {
+        int w = (int) f[0];
+        Set2 s2; s2.beginResize();
+        const std::size_t n = cs.size(); std::size_t k = 0;
+        for (typename Set::const_iterator it = cs.begin(); it != cs.end(); ++it, ++k) {
+          TG g = it->global(); TL l = it->local();
+          if (k + 1 == n) {
+            if (w == 1) l = l.local() + 1;
+            else if (w == 2) set_attr(l, attr_of(l) + 1);
+            else if (w == 3) l = with_pub(l, !pub_of(l));
+            else if (w == 4) g = g + 1;
+            else if (w == 5) continue;
+            else if (w == 6) l.setState(l.state() == Dune::VALID ? Dune::DELETED : Dune::VALID);
+          }
+          s2.add(g, l);
+        }
+        s2.endResize();
+        bool eq = (cs == s2), ne = (cs != s2);
+        r = bits({ eq, ne });
+        if ((s2 == cs) != eq) r += " (asymmetric)";
+        break;
+      }
+      case 'C': {
+        Set c(cs); Set d; d.beginResize(); d.add((TG) 1); d.endResize(); d = cs;
+        std::string r1 = "[", r2 = "[";
+        const Set& cc = c; const Set& cd = d;
+        for (typename Set::const_iterator it = cc.begin(); it != cc.end(); ++it) r1 += pstr(*it);
+        for (typename Set::const_iterator it = cd.begin(); it != cd.end(); ++it) r2 += pstr(*it);
+        r1 += "]/" + std::to_string(cc.size()) + "/" + std::to_string(cc.seqNo()) + "/" + (c.state() == Dune::GROUND ? "GROUND" : "RESIZE");
+        r2 += "]/" + std::to_string(cd.size()) + "/" + std::to_string(cd.seqNo()) + "/" + (d.state() == Dune::GROUND ? "GROUND" : "RESIZE");
+        r = (r1 == r2) ? r1 : ("copy=" + r1 + ",assigned=" + r2); break;
+      }
       default: r = "UNKNOWN-OP";
       }
     }
@@ -121,7 +223,7 @@ static std::string run(const std::vector<std::string>& t)
   return out;
 }
 
-#define NS X(1) X(2) X(3) X(4) X(7) X(100)
+#define NS X(0) X(1) X(2) X(3) X(4) X(7) X(100)
 
 int main(int argc, char** argv)
 {
@@ -133,9 +235,10 @@ int main(int argc, char** argv)
     while (is >> w) t.push_back(w);
     if (t.size() < 2) { std::cout << "BAD-CASE" << std::endl; continue; }
     int n = std::atoi(t[0].c_str());
+    bool variantL = !t[0].empty() && t[0][t[0].size() - 1] == 'L';
     std::string r = "UNSUPPORTED-N";
     switch (n) {
-#define X(K) case K: r = run<K>(t); break;
+#define X(K) case K: r = variantL ? run<long long, Dune::LocalIndex, K>(t) : run<int, PLI, K>(t); break;
       NS
 #undef X
     }
